@@ -70,7 +70,7 @@ HostTable ==
                                  "{% cycle 'u', 'v' %}", "{% tablerow i in (1..2) cols:1 %}", "{% endtablerow %}", "{{i}}"}),
     Host("partial", "", "", 1, PartialVocab),
     \* stray braces and blanks next to trimming and non-trimming elements: what a trim marker removes is exactly the blanks
-    Host("tmpl_trim", "", "", 1, {"{", "}", " ", "\n", "x", "{{- a -}}", "{{a}}", "{%- if a -%}", "{% if a %}", "{%- endif -%}", "{% endif %}", "{{-", "-}}", "%}", "{{-1}}", "{{-a}}", "{{-1 -}}"}),
+    Host("tmpl_trim", "", "", 1, {"{", "}", " ", "\n", "x", "{{- a -}}", "{{a}}", "{%- if a -%}", "{% if a %}", "{%- endif -%}", "{% endif %}", "{{-", "-}}", "%}", "{{-1}}", "{{-a}}", "{{-1 -}}", "\r", "\r\n"}),
     \* comments: nested, with malformed headers and end tags, around invalid liquid and broken tags (C01: what must be rejected)
     Host("tmpl_comment", "", "", 1, {"{% comment %}", "{% comment x %}", "{% endcomment %}", "{% endcomment x %}", "a", " ", "{% if %}", "{% bogus %}", "{{",
                                      "{% raw %}", "{% endraw %}", "{% assign %}"}),
@@ -156,7 +156,7 @@ LSpec == LInit /\ [][LNext]_allv
 
 (* ------------------------------- records ------------------------------ *)
 Printable == " !\"#$%&'()*+,-./0123456789:;<=>?@ABCDEFGHIJKLMNOPQRSTUVWXYZ[\\]^_`abcdefghijklmnopqrstuvwxyz{|}~"
-Code(c) == IF c = "\t" THEN 9 ELSE IF c = "\n" THEN 10
+Code(c) == IF c = "\t" THEN 9 ELSE IF c = "\n" THEN 10 ELSE IF c = "\r" THEN 13
            ELSE 31 + (CHOOSE j \in 1..Len(Printable) : SubSeq(Printable, j, j) = c)
 Codes(s) == [j \in 1..Len(s) |-> Code(SubSeq(s, j, j))]
 
